@@ -3,6 +3,7 @@ import H2.Proofs.Frame
 import H2.Props.C06
 import H2.Props.C16
 import H2.Proofs.HpackEnc
+import H2.Proofs.ServerHdrFrames
 /-!
 # C18 — SETTINGS are acknowledged in order and the peer's limits are obeyed (server role)
 
@@ -197,11 +198,6 @@ theorem table_size_flag (p : Bytes) (s s' : SettingsVal) (h : settingsRead p s =
       repeat' split
       all_goals simp_all [Bool.or_assoc]
 
-/-! ### what is not proved (known finding, see KNOWN_FINDINGS.txt)
-* F33 — a response header block always goes out as one HEADERS frame, whatever its size: the full model's
-  `responseHeaders` emits a single `.headers` output whose length is the block length, so a HEADERS frame can
-  exceed the peer's SETTINGS_MAX_FRAME_SIZE. -/
-
 /-! ### the server twin of F09c: "0, then 4096" in one SETTINGS frame, now a regression example -/
 
 /-- the encoder holds `:status 201` from an earlier response; the frame's two values empty its table and leave the
@@ -221,6 +217,81 @@ example :
     let d : Hpack.DecState := { dyn := [([58, 115, 116, 97, 116, 117, 115], [50, 48, 49])] }
     let d' := [0, 4096].foldl peerAnnounce d
     (d'.dyn, d'.maxSize, d'.limit) = ([], 0, 4096) ∧ decodeAll 2 d' true 0 [0xbe] [] = none := by decide +kernel
+
+/-! ### header blocks respect any MAX_FRAME_SIZE a peer can have (finding F33, repaired)
+
+The write loop cuts a response header block at 16384 octets (`writeHeaderBlock` with `maxDataFrameSize`; `cutBlock` and
+`blockOuts` in the full model): HEADERS with the first fragment, CONTINUATION frames for the rest, END_HEADERS on the
+last. Before the repair the block went out as one HEADERS frame whatever its length. -/
+
+/-- **Every HEADERS and CONTINUATION frame of every run is at most 16384 octets** — whatever the configuration and the
+events (frames received, handler completions with any response, cuts, the idle timer), on the full server model. No
+accepted SETTINGS frame can announce a smaller SETTINGS_MAX_FRAME_SIZE (`invalid_values_rejected`, `bad_pair_codes`), so
+together with `data_within_peer_max_frame_size` and the fixed sizes of the other frames the peer's limit is obeyed. -/
+theorem header_frames_within_peer_max_frame_size (cfg : Cfg) (evs : List Event) :
+    ∀ o ∈ runOuts cfg evs,
+      match o with
+      | .headers _ _ _ len _ _ => len ≤ 2 ^ 14
+      | .cont _ _ len _ _ => len ≤ 2 ^ 14
+      | _ => True := by
+  intro o ho
+  have h := run_frags_le cfg evs
+  cases o with
+  | headers sid es eh len fs e =>
+    exact h len (List.mem_filterMap.mpr ⟨_, ho, rfl⟩)
+  | cont sid eh len fs e =>
+    exact h len (List.mem_filterMap.mpr ⟨_, ho, rfl⟩)
+  | _ => trivial
+
+/-- **The frames of a block are the block** (the response-direction twin of `C20.block_frames_are_whole`): what
+`responseHeaders` adds to the output is exactly the frames of the fragments `cutBlock` makes of the encoder's block —
+one HEADERS frame on the stream's id, END_STREAM on it exactly when there is no body, then CONTINUATION frames, their
+payload lengths the fragment lengths in order; the fragments written one after the other are the encoder's octets
+(nothing lost, added or reordered), none is longer than 16384 octets and no CONTINUATION frame is empty. -/
+theorem header_block_frames_are_whole (r : R) (st : Strm) (resp : Resp) (hasBody : Bool) :
+    let block := responseBlock r resp
+    let frags := cutBlock Gen.c_maxDataFrameSize block
+    (∃ fs e, (responseHeaders r st resp hasBody).out = r.out ++ blockOuts st.id (!hasBody) fs e frags ∧
+        fm fragLen (blockOuts st.id (!hasBody) fs e frags) = frags.map List.length) ∧
+    frags.flatten = block ∧ (∀ f ∈ frags, f.length ≤ 2 ^ 14) ∧ (∀ f ∈ frags.tail, f ≠ []) := by
+  intro block frags
+  obtain ⟨fs, e, h⟩ := responseHeaders_block r st resp hasBody
+  exact ⟨⟨fs, e, h, fm_fragLen_blockOuts _ _ _ _ _⟩, cutBlock_whole _ (by decide) _, cutBlock_le _ _,
+    cutRest_ne _ (by decide) _ _⟩
+
+/-- the shape of the frames: the first is the HEADERS frame, END_HEADERS is on the last frame and on no other, and a
+block of at most 16384 octets is one HEADERS frame as before -/
+theorem header_block_shape (sid : Nat) (es : Bool) (fs : List (Bytes × Bytes)) (e : Bool) (f : Bytes) (rest : List Bytes) :
+    blockOuts sid es fs e (f :: rest) =
+      .headers sid es rest.isEmpty f.length (if rest.isEmpty then fs else []) (rest.isEmpty && e) :: contOuts sid fs e rest ∧
+    (∀ (g : Bytes) (more : List Bytes), contOuts sid fs e (g :: more) =
+      .cont sid more.isEmpty g.length (if more.isEmpty then fs else []) (more.isEmpty && e) :: contOuts sid fs e more) :=
+  ⟨rfl, fun _ _ => rfl⟩
+
+theorem small_block_one_frame (sid : Nat) (es : Bool) (fs : List (Bytes × Bytes)) (e : Bool) (b : Bytes)
+    (h : b.length ≤ 2 ^ 14) :
+    blockOuts sid es fs e (cutBlock Gen.c_maxDataFrameSize b) = [.headers sid es true b.length fs e] :=
+  blockOuts_small sid es fs e _ b h
+
+/-- the frame sizes are a function of the block length: 16384, 16384, …, and what is left -/
+theorem header_frame_sizes (b : Bytes) :
+    (cutBlock Gen.c_maxDataFrameSize b).map List.length =
+      min Gen.c_maxDataFrameSize b.length :: restLens Gen.c_maxDataFrameSize b.length (b.length - Gen.c_maxDataFrameSize) :=
+  cutBlock_lens _ b
+
+/-- non-vacuity: a block of 40 000 octets goes out in 3 frames of 16384, 16384 and 7232 octets (before the repair: one
+HEADERS frame of 40 000); 16384 octets are one frame, 16385 two -/
+example : (cutBlock Gen.c_maxDataFrameSize (List.replicate 40000 0)).map List.length = [16384, 16384, 7232] := by
+  rw [header_frame_sizes, List.length_replicate]; decide
+example : (cutBlock Gen.c_maxDataFrameSize (List.replicate 16384 0)).map List.length = [16384] := by
+  rw [header_frame_sizes, List.length_replicate]; decide
+example : (cutBlock Gen.c_maxDataFrameSize (List.replicate 16385 0)).map List.length = [16384, 1] := by
+  rw [header_frame_sizes, List.length_replicate]; decide
+example : blockOuts 1 true [([1], [2])] false [[7, 7], [8], [9]] =
+    [.headers 1 true false 2 [], .cont 1 false 1 [], .cont 1 true 1 [([1], [2])]] := rfl
+/-- a run with a HEADERS output exists: the first request of a connection answered without a body (1 octet: `:status 200`) -/
+example : fm fragLen (runOuts {} [.bytes [0, 0, 5, 1, 5, 0, 0, 0, 1, 0x82, 0x87, 0x84, 0x41, 0], .done 1 {}]) = [1] := by
+  decide +kernel
 
 /-! non-vacuity -/
 example : ∃ (r : R) (st : SettingsVal) (v : Nat), v ∈ tableSizes st ∧ v < r.s.enc.maxSize :=
